@@ -168,6 +168,8 @@ pub fn schema() -> (Schema, Fields) {
     // postings without positions (frequencies only) and JSON terms of every scalar type
     sb.add_text_field("wf", TextOptions::default().set_indexing_options(TextFieldIndexing::default().set_tokenizer("default").set_index_option(IndexRecordOption::WithFreqs)));
     sb.add_json_field("js", TEXT);
+    // a multi-valued fast field whose values are recorded in a non-monotone order (ten per document)
+    sb.add_u64_field("mv", FAST);
     (sb.build(), Fields { id, k, body, sv })
 }
 
@@ -206,7 +208,15 @@ pub fn make_doc(f: &Fields, id: u64, key: &str) -> TantivyDocument {
     obj.insert("b".to_string(), tantivy::schema::OwnedValue::Bool(id % 2 == 0));
     obj.insert("t".to_string(), tantivy::schema::OwnedValue::Str(key.to_string()));
     d.add_object(extra(2), obj);
+    for v in mv_values(id) {
+        d.add_u64(extra(3), v);
+    }
     d
+}
+
+/// the values of the multi-valued fast field of document `id`, in recording order
+pub fn mv_values(id: u64) -> Vec<u64> {
+    [7u64, 3, 9, 1, 5, 0, 8, 2, 6, 4].iter().map(|x| id * 100 + x).collect()
 }
 
 /// the sort value of document `id` (None = no value)
@@ -482,6 +492,29 @@ pub fn observe_searcher(searcher: &Searcher, f: &Fields) -> Result<Vec<MDoc>, (S
         let nb = searcher.search(&qb, &tantivy::collector::Count).map_err(|e| ("search_failed".to_string(), format!("{e:?}")))?;
         if nb != want {
             return Err(("postings_disagree".into(), format!("term query body:{key} counts {nb}, expected {want}")));
+        }
+    }
+    // multi-valued fast field: the values of a document in the order they were recorded; field norms of every
+    // text field (body holds 3 tokens, wf holds id % 3 + 2)
+    {
+        let body = searcher.schema().get_field("body").map_err(|e| ("reader_failed".to_string(), e.to_string()))?;
+        let wf = searcher.schema().get_field("wf").map_err(|e| ("reader_failed".to_string(), e.to_string()))?;
+        for seg in searcher.segment_readers() {
+            let ids = seg.fast_fields().u64("id").map_err(|e| ("reader_failed".to_string(), format!("{e:?}")))?;
+            let mv = seg.fast_fields().u64("mv").map_err(|e| ("reader_failed".to_string(), format!("{e:?}")))?;
+            let nb = seg.get_fieldnorms_reader(body).map_err(|e| ("reader_failed".to_string(), format!("{e:?}")))?;
+            let nw = seg.get_fieldnorms_reader(wf).map_err(|e| ("reader_failed".to_string(), format!("{e:?}")))?;
+            for d in seg.doc_ids_alive() {
+                let id = ids.first(d).unwrap_or(u64::MAX);
+                let got: Vec<u64> = mv.values_for_doc(d).collect();
+                if got != mv_values(id) {
+                    return Err(("doc_inconsistent".into(), format!("doc id {id}: the multi-valued fast field holds {got:?}, the document was added with {:?}", mv_values(id))));
+                }
+                let (fb, fw) = (nb.fieldnorm(d), nw.fieldnorm(d));
+                if fb != 3 || fw as u64 != id % 3 + 2 {
+                    return Err(("doc_inconsistent".into(), format!("doc id {id}: field norms body = {fb} (3 tokens were indexed), wf = {fw} ({} tokens were indexed)", id % 3 + 2)));
+                }
+            }
         }
     }
     // frequency-only postings: every live document under its key with its term frequency
